@@ -35,6 +35,9 @@ class Ctx:
     def __init__(self, script, timeout_ms):
         self.solver = z3.Solver()
         self.solver.set('timeout', timeout_ms)
+        self.timeout_ms = timeout_ms
+        self.retries = 0
+        self._alt_model = None
         self.script = script      # list of entries to replay
         self.pos = 0
         self.trail = []           # entries actually taken on this path
@@ -50,13 +53,40 @@ class Ctx:
 
     def check(self, *extra):
         t = time.perf_counter()
+        self._alt_model = None
         r = self.solver.check(*extra)
+        if r == z3.unknown:
+            r = self._retry(extra)
         self.qtime += time.perf_counter() - t
         self.queries += 1
         return r
 
+    def _retry(self, extra):
+        # heavy-tailed nonlinear queries: re-ask fresh solvers (other seed, then the nlsat tactic) before giving up
+        self.retries += 1
+        for k, mk in enumerate((lambda: z3.Solver(), lambda: z3.Then('simplify', 'qfnra-nlsat').solver(),
+                                lambda: z3.Solver())):
+            try:
+                s2 = mk()
+                s2.set('timeout', self.timeout_ms * (2 + k))
+                if k != 1:
+                    s2.set('random_seed', 11 + 17 * k)
+                s2.add(self.solver.assertions())
+                s2.add(*extra)
+                r = s2.check()
+            except z3.Z3Exception:
+                continue
+            if r != z3.unknown:
+                if r == z3.sat:
+                    self._alt_model = s2.model()
+                return r
+        return z3.unknown
+
     def add(self, c):
         self.solver.add(c)
+
+    def model(self):
+        return self._alt_model if self._alt_model is not None else self.solver.model()
 
     # entries: ['B', cond_hash, value, has_alt]  |  ['R', expr_hash, excluded(list of z3 vals), cur, more]
     def decide(self, cond):
@@ -118,7 +148,7 @@ class Ctx:
                 raise Inconclusive('solver returned unknown while realising')
             if r == z3.unsat:
                 raise Abort()
-            v = self.solver.model().eval(expr, model_completion=True)
+            v = self.model().eval(expr, model_completion=True)
             r2 = self.check(expr != v)
             if r2 == z3.unknown:
                 raise Inconclusive('solver returned unknown while realising')
@@ -132,10 +162,11 @@ class Ctx:
         r = self.check()
         if r != z3.sat:
             return None
-        m = self.solver.model()
+        m = self.model()
         out = {}
         for name, (kind, e) in self.vars.items():
-            out[name] = _pyval(m.eval(e, model_completion=True))
+            v = m.eval(e, model_completion=True)
+            out[name] = v.as_signed_long() if kind == 'wint' and z3.is_bv_value(v) else _pyval(v)
         return m, out
 
 
@@ -165,6 +196,7 @@ def _pyval(v):
 
 
 CTX = None
+WIDE = 160
 
 
 def ctx():
@@ -370,6 +402,31 @@ class SymInt:
 
     def __abs__(self):
         return SymInt(z3.If(self.e >= 0, self.e, -self.e))
+
+    def to_bv(self, width=None, signed=False):
+        return SymBV(z3.Int2BV(self.e, width or WIDE), signed)
+
+    def __rlshift__(self, o):
+        """concrete_int << symbolic amount: a wide bit-vector standing in for the unbounded Python int; the amount
+        must provably stay in [0, WIDE - 32) on this path, otherwise the result could wrap and the run is inconclusive"""
+        if not isinstance(o, int) or o < 0 or o >= 1 << 31:
+            raise EngineError('unsupported left operand for a symbolic shift')
+        if CTX.decide(self.e < 0):
+            raise ValueError('negative shift count')     # what Python does
+        r = CTX.check(self.e >= WIDE - 32)
+        if r != z3.unsat:
+            raise Inconclusive('symbolic shift amount may exceed the modelled width')
+        return SymBV(z3.BitVecVal(o, WIDE) << z3.Int2BV(self.e, WIDE))
+
+    def __lshift__(self, o):
+        if isinstance(o, int) and 0 <= o < 4096:
+            return SymInt(self.e * (1 << o))
+        return NotImplemented
+
+    def __rshift__(self, o):
+        if isinstance(o, int) and 0 <= o < 4096:
+            return SymInt(self.e / (1 << o))     # floor for positive divisor, as python
+        return NotImplemented
 
     def __eq__(self, o):
         l = _i(o)
@@ -599,7 +656,15 @@ class SymBV:
 
     def __rlshift__(self, o):
         l = self._l(o)
-        return NotImplemented if l is None else self._mk(l << self.e)
+        if l is None:
+            return NotImplemented
+        if self.signed and self.w == WIDE:
+            # python-int stand-in: negative amount raises, large amount would leave the modelled width
+            if CTX.decide(self.e < 0):
+                raise ValueError('negative shift count')
+            if CTX.check(self.e >= WIDE - 32) != z3.unsat:
+                raise Inconclusive('symbolic shift amount may exceed the modelled width')
+        return self._mk(l << self.e)
 
     def __rshift__(self, o):
         l = self._l(o)
@@ -706,6 +771,14 @@ class SymV:
         self._reg(name, 'bv', e)
         return SymBV(e, signed)
 
+    def wint(self, name, lo, hi):
+        """Python int modelled as a signed WIDE-bit vector (for shift/mask code); exact while values stay far below
+        2^(WIDE-1), which the shift side conditions enforce"""
+        e = z3.BitVec(name, WIDE)
+        self._reg(name, 'wint', e)
+        self.c.add(z3.And(e >= lo, e <= hi))      # signed comparisons
+        return SymBV(e, True)
+
     def fresh_real(self, prefix='rnd', lo=None, hi=None):
         self.c.fresh += 1
         return self.real(f'{prefix}{self.c.fresh}', lo, hi)
@@ -721,6 +794,9 @@ class SymV:
 
     def distinct(self, *xs):
         self.c.add(z3.Distinct(*[x.e for x in xs]))
+
+    def sym_const(self, v):
+        return v
 
     def observe(self, key, value):
         self.c.observed.append((key, value))
@@ -810,6 +886,10 @@ class ConcreteV:
         if signed and v >> (width - 1):
             v -= 1 << width
         return v
+
+    def wint(self, name, lo, hi):
+        v = self.model.get(name)
+        return int(lo if v is None else v)
 
     def fresh_real(self, prefix='rnd', lo=None, hi=None):
         self.fresh += 1
